@@ -545,6 +545,22 @@ pub fn c03(rec: &mut Rec, rng: &mut Rng, thorough: bool) {
             }
         }
     }
+    // the Accept-Encoding alphabet (weights with any number of decimals, optional whitespace, lists) through the value
+    // parser, a header line, a block and a one-shot request
+    rec.case("accept-encoding-values");
+    for v in gen::AE_VALUES {
+        for extra in ["", "0", "00000", ".5", " ", ";q=0.00000000001"] {
+            let val = format!("{}{}", v, extra);
+            rec.nontrivial_op();
+            crate::suites::headers::op_enc(rec, val.as_bytes());
+            let line = format!("Accept-Encoding: {}", val);
+            crate::suites::headers::block_case_quiet(rec, line.as_bytes());
+            oneshot_op(rec, format!("GET / HTTP/1.1\r\n{}\r\n\r\n", line).as_bytes(), None);
+            let mut d = ConnDriver::new(rec, 51200);
+            d.recv(rec, format!("GET / HTTP/1.1\r\n{}\r\n\r\n", line).as_bytes(), 0);
+            d.popall(rec);
+        }
+    }
     // URI path extraction on absolute-form URIs with non-ASCII, empty and odd authorities
     rec.case("abs-path-odd-uris");
     let pieces: [&str; 12] = ["http://", "http:/", "/", "//", "\u{e9}", "\u{20ac}", "\u{1F600}", "a", ":", "%", "h", "."];
